@@ -6,7 +6,7 @@ ID = "C06"
 BUILDS = ("rel", "chk")
 RULE = ("HashToCurve::{hash_to_curve, encode_to_curve} for G1 and G2 with XMD(SHA-256), XMD(SHA-512), XOF(SHAKE128), "
         "XOF(SHAKE256): message lengths 0, 1 and +-1 around every block / rate boundary (55/56, 63/64/65, 111/112, "
-        "127/128/129, 135/136/137, 167/168/169), 10 kB; tags of length 0, 1, 16, 43, 254, 255; random content; each "
+        "127/128/129, 135/136/137, 167/168/169; 60/61/62, 124/125/126, 133/134, 165/166 where message plus length octets fill a block), 10 kB; tags of length 0, 1, 16, 43, 254, 255; random content; each "
         "call repeated once to observe dependence on (msg, tag) only. Oracle: the model's end-to-end RFC 9380 pipeline "
         "(hashlib -> hash_to_field -> simplified SWU -> isogeny -> addition on the target curve -> h_eff), compared as "
         "affine points, and the model subgroup predicate on a sample of results. RFC appendix J vectors are part of the "
@@ -16,6 +16,9 @@ MIN_EVALS = {"quick": 800, "thorough": 20000}
 
 XS = ["sha256", "sha512", "shake128", "shake256"]
 MSG_LENS = [0, 1, 55, 56, 57, 63, 64, 65, 111, 112, 127, 128, 129, 135, 136, 137, 167, 168, 169]
+# boundaries of the strings that are actually hashed: the message followed by the 3 (XMD: l_i_b_str, 0) or 2 (XOF) length
+# octets reaches a block / rate boundary at 61 (SHA-256), 125 (SHA-512), 134 (SHAKE256), 166 (SHAKE128); +-1 around each
+MSG_LENS += [60, 61, 62, 124, 125, 126, 133, 134, 165, 166]
 DST_LENS = [0, 1, 16, 43, 254, 255]
 
 
